@@ -419,6 +419,72 @@ func c15F5(idx int, r *Result) {
 	c15GraphRun(append([]string{"main"}, c15F5Mods...), imports, edges, r)
 }
 
+// ---------------------------------------------------------------- F6: chains main -> b -> a
+
+// An item can be imported from a module only if THAT module declares it `pub`: an item which b
+// merely imported from a is not importable from b, whatever its visibility in a.
+var c15F6Kinds = []string{"fn", "let", "type"}
+var c15F6B = []string{"imports-it-from-a", "declares-it-pub", "declares-it-private", "does-not-have-it", "imports-it-from-a-and-uses-it"}
+
+func c15F6Count() int { return len(c15F6Kinds) * 2 * len(c15F6B) }
+
+func c15F6Item(kind, mod string, pub bool) string {
+	v := ""
+	if pub {
+		v = "pub "
+	}
+	switch kind {
+	case "fn":
+		return fmt.Sprintf("%sfn item() -> int { println(\"%s.item\"); 1 }\n", v, mod)
+	case "let":
+		return fmt.Sprintf("%slet item = 41;\n", v)
+	}
+	return fmt.Sprintf("%stype item = { x: int };\n", v)
+}
+
+func c15F6(idx int, r *Result) {
+	d := radix(idx, len(c15F6B), 2, len(c15F6Kinds))
+	bv, aPub, kind := c15F6B[d[0]], d[1] == 1, c15F6Kinds[d[2]]
+	imp := "item"
+	if kind == "type" {
+		imp = "type item"
+	}
+	var use, want string
+	switch kind {
+	case "fn":
+		use, want = "    println(item());\n", "%s.item\n1\n"
+	case "let":
+		use, want = "    println(item);\n", "41\n"
+	default:
+		use, want = "    let t: item = new { x: 5 };\n    println(t.x);\n", "5\n"
+	}
+	mods := map[string]string{"a": c15F6Item(kind, "a", aPub) + "fn main() {}\n"}
+	legal := false
+	switch bv {
+	case "imports-it-from-a":
+		mods["b"] = fmt.Sprintf("import { %s } from a;\nfn main() {}\n", imp)
+	case "imports-it-from-a-and-uses-it":
+		mods["b"] = fmt.Sprintf("import { %s } from a;\npub fn other() {\n%s}\nfn main() {}\n", imp, use)
+	case "declares-it-pub":
+		mods["b"] = c15F6Item(kind, "b", true) + "fn main() {}\n"
+		legal = true
+	case "declares-it-private":
+		mods["b"] = c15F6Item(kind, "b", false) + "fn main() {}\n"
+	default:
+		mods["b"] = "fn main() {}\n"
+	}
+	mods["main"] = fmt.Sprintf("import { %s } from b;\nfn main() {\n%s    println(\"end\");\n}\n", imp, use)
+	if strings.Contains(want, "%s") {
+		want = fmt.Sprintf(want, "b")
+	}
+	vis := "private"
+	if aPub {
+		vis = "pub"
+	}
+	tags := []string{"chain", "kind:" + kind, "a:" + vis, "b:" + bv}
+	c15Judge(mods, legal, want+"end\n", tags, r)
+}
+
 // ---------------------------------------------------------------- F4: exceptions across modules
 
 var c15F4Shapes = []string{"caught-in-main", "caught-in-library", "uncaught-from-library", "library-catches-own", "caught-in-main-then-call-library-again", "nested-library-chain"}
@@ -518,6 +584,7 @@ func init() {
 			{Name: "same-names-in-several-modules", Count: func(string) int { return c15F2Count() }, Run: func(_ string, idx int, r *Result) { c15F2(idx, r) }},
 			{Name: "exceptions-across-modules", Count: func(string) int { return c15F4Count() }, Run: func(_ string, idx int, r *Result) { c15F4(idx, r) }},
 			{Name: "import-graphs", Count: func(string) int { return c15F3Count() }, Run: func(_ string, idx int, r *Result) { c15F3(idx, r) }},
+			{Name: "chains-main-b-a", Count: func(string) int { return c15F6Count() }, Run: func(_ string, idx int, r *Result) { c15F6(idx, r) }},
 			{Name: "ordered-import-lists-over-five-modules", Count: func(string) int { return c15F5Count() }, Run: func(_ string, idx int, r *Result) { c15F5(idx, r) }},
 		}}
 	})
